@@ -2,6 +2,8 @@ import SJ.Proofs.Machine
 import SJ.Proofs.EarliestMain
 import SJ.Proofs.EarliestDead
 import SJ.Proofs.LineCol
+import SJ.Proofs.EarliestGrammar
+import SJ.Proofs.EarliestStrBound
 /-!
 # C11 — syntax errors point at the first offending byte
 
@@ -476,5 +478,243 @@ example : positionOfIndex lcDoc 10 = some (4, 1) ∧ positionOfIndex lcDoc 11 = 
     SlicePos.peekPosition ⟨lcDoc, 10⟩ = some (4, 1) := by decide
 example : memrchr 0x0a (lcDoc.take 8) = some 4 ∧ memchrCount 0x0a (lcDoc.take 5) = 2 := by decide
 end
+
+
+/-! ## Eof-classified errors: the input is a PROPER PREFIX of an accepted input (converse of `c11_eof_at_end`)
+
+Without this a model that answered Eof on a dead input would satisfy every theorem above. Two qualifications, the
+same as for `c11_earliest`:
+
+* **`\u` groups.** An input that ends inside the four bytes after `\u` is `EofWhileParsingString` whatever those bytes
+  are (`decode_four_hex_digits` fails with Eof when fewer than four bytes are left — the statement of C12 calls this
+  truncation: "a \u escape cut off by the end of input"); what is viable is the prefix ending right after `\u`
+  (`k ≤ 3` bytes shorter).
+* **side conditions of `Value`** (`SideOK`, for the state at the end of the input): `"\xff` from a byte source is
+  `EofWhileParsingString` although no continuation passes the UTF-8 check (`c11_eof_sideOK_needed`), and `1`, 309
+  zeros, `e+` is `EofWhileParsingValue` although every completion is out of range. At grammar level
+  (`c11_eof_viable_grammar`) nothing is assumed. -/
+
+open SJ.Proofs.Earliest SJ.Proofs.EofViable SJ.Proofs.Complete in
+/-- **C11 (Eof ⇒ viable).** If parsing (any target, source, configuration) fails with an Eof-classified error and the
+    state at the end of the input is not doomed by a side condition, then the input — minus the `k ≤ 3` unchecked
+    bytes of a `\u` group it ends in — has a NON-EMPTY continuation that is accepted. -/
+theorem c11_eof_viable (env : Env) (bs : Bytes) (c : Code) (idx : Nat)
+    (h : parseTop env bs = .err c idx) (hc : classify c = .eof)
+    (hside : ∀ s, feed env init 0 bs = .ok (s, bs.length) → SideOK env s) :
+    ∃ k ys v, (k = 0 ∨ (0 < k ∧ k ≤ 3 ∧ c = .EofWhileParsingString ∧
+        ∃ x, bs.take (bs.length - k) = x ++ [0x5c, 0x75])) ∧ k ≤ bs.length ∧ ys ≠ [] ∧
+      parseTop env (bs.take (bs.length - k) ++ ys) = .ok v := by
+  obtain ⟨s, hf, hfin⟩ := parse_eof_split env bs c idx h hc
+  have hfeed : feed env init 0 bs = .ok (s, bs.length) := by rw [hf.to_feed 0]; simp
+  exact eof_viable_core env bs s c hf hfin (hside s hfeed) (expOK_of_finish_eof env s c hfin hc)
+
+open SJ.Proofs.Earliest in
+/-- **C11 (Eof ⇒ viable), skipped content**: no side condition. -/
+theorem c11_eof_viable_ignored (env : Env) (henv : env.tgt = .ignored) (bs : Bytes) (c : Code) (idx : Nat)
+    (h : parseTop env bs = .err c idx) (hc : classify c = .eof) :
+    ∃ k ys v, (k = 0 ∨ (0 < k ∧ k ≤ 3 ∧ c = .EofWhileParsingString ∧
+        ∃ x, bs.take (bs.length - k) = x ++ [0x5c, 0x75])) ∧ k ≤ bs.length ∧ ys ≠ [] ∧
+      parseTop env (bs.take (bs.length - k) ++ ys) = .ok v :=
+  c11_eof_viable env bs c idx h hc (fun s _ => sideOK_ignored env henv s)
+
+open SJ.Proofs.EofViable SJ.Proofs.EarliestGrammar in
+/-- **C11 (Eof ⇒ proper prefix of a JSON text), every target, unconditionally.** An Eof-classified error means that
+    the input (minus the unchecked bytes of a `\u` group it ends in) is a proper prefix of an RFC 8259 JSON text. -/
+theorem c11_eof_viable_grammar (env : Env) (bs : Bytes) (c : Code) (idx : Nat)
+    (h : parseTop env bs = .err c idx) (hc : classify c = .eof) :
+    ∃ k ys t, (k = 0 ∨ (0 < k ∧ k ≤ 3 ∧ ∃ x, bs.take (bs.length - k) = x ++ [0x5c, 0x75])) ∧
+      k ≤ bs.length ∧ ys ≠ [] ∧ Spec.Grammar.JsonText (bs.take (bs.length - k) ++ ys) t := by
+  obtain ⟨s, hf, hfin⟩ := parse_eof_split env bs c idx h hc
+  exact eof_grammar_core env bs s c hf hfin hc
+
+/-- … in particular, when the input does not end inside a `\u` group, the input itself is a proper prefix -/
+theorem c11_eof_proper_prefix (env : Env) (bs : Bytes) (c : Code) (idx : Nat)
+    (h : parseTop env bs = .err c idx) (hc : classify c = .eof)
+    (hnu : ∀ x d, bs = x ++ [0x5c, 0x75] ++ d → d = [] ∨ 3 < d.length) :
+    ∃ ys t, ys ≠ [] ∧ Spec.Grammar.JsonText (bs ++ ys) t := by
+  obtain ⟨k, ys, t, hk, hle, hne, ht⟩ := c11_eof_viable_grammar env bs c idx h hc
+  rcases hk with rfl | ⟨h1, h2, x, hx⟩
+  · exact ⟨ys, t, hne, by simpa using ht⟩
+  · exfalso
+    have hsplit : bs = x ++ [0x5c, 0x75] ++ bs.drop (bs.length - k) := by
+      rw [← hx, List.take_append_drop]
+    rcases hnu x _ hsplit with h0 | h0
+    · have := congrArg List.length h0; simp at this; omega
+    · simp at h0; omega
+
+open SJ.Proofs.Earliest in
+/-- … and at machine level: when the input does not end inside a `\u` group (and `SideOK`), the input itself has a
+    non-empty accepted continuation — the statement in its plain form -/
+theorem c11_eof_viable_plain (env : Env) (bs : Bytes) (c : Code) (idx : Nat)
+    (h : parseTop env bs = .err c idx) (hc : classify c = .eof)
+    (hside : ∀ s, feed env init 0 bs = .ok (s, bs.length) → SideOK env s)
+    (hnu : ∀ x d, bs = x ++ [0x5c, 0x75] ++ d → d = [] ∨ 3 < d.length) :
+    ∃ ys v, ys ≠ [] ∧ parseTop env (bs ++ ys) = .ok v := by
+  obtain ⟨k, ys, v, hk, hle, hne, hv⟩ := c11_eof_viable env bs c idx h hc hside
+  rcases hk with rfl | ⟨h1, h2, _, x, hx⟩
+  · exact ⟨ys, v, hne, by simpa using hv⟩
+  · exfalso
+    have hsplit : bs = x ++ [0x5c, 0x75] ++ bs.drop (bs.length - k) := by
+      rw [← hx, List.take_append_drop]
+    rcases hnu x _ hsplit with h0 | h0
+    · have := congrArg List.length h0; simp at this; omega
+    · simp at h0; omega
+
+/-! non-vacuity: `[1,` is `EofWhileParsingValue` at 3 and continues with `null]`; `"\u12` (cut inside the group) is
+    `EofWhileParsingString` at 5, and `"\u` continues with `0000"` -/
+example : parseTop envS [0x5b, 0x31, 0x2c] = .err .EofWhileParsingValue 3 := rfl
+example : ∃ k ys v, (k = 0 ∨ (0 < k ∧ k ≤ 3 ∧ Code.EofWhileParsingValue = .EofWhileParsingString ∧
+      ∃ x, ([0x5b, 0x31, 0x2c] : Bytes).take (3 - k) = x ++ [0x5c, 0x75])) ∧ k ≤ 3 ∧ ys ≠ [] ∧
+    parseTop envS (([0x5b, 0x31, 0x2c] : Bytes).take (3 - k) ++ ys) = .ok v :=
+  c11_eof_viable envS [0x5b, 0x31, 0x2c] .EofWhileParsingValue 3 rfl rfl (fun s hs => by cases hs; trivial)
+example : parseTop envSl [0x22, 0x5c, 0x75, 0x31, 0x32] = .err .EofWhileParsingString 5 := rfl
+example : parseTop envSl [0x22, 0x5c, 0x75, 0x47, 0x22] = .err .EofWhileParsingString 5 := rfl
+example : ∃ ys t, ys ≠ [] ∧ Spec.Grammar.JsonText (([0x5b, 0x31, 0x2c] : Bytes) ++ ys) t :=
+  c11_eof_proper_prefix envSl [0x5b, 0x31, 0x2c] .EofWhileParsingValue 3 rfl rfl (fun x d hd => by
+    have h3 := congrArg List.length hd
+    simp at h3
+    left; apply List.eq_nil_of_length_eq_zero
+    rcases x with _ | ⟨x0, _ | ⟨x1, _ | ⟨x2, x3⟩⟩⟩ <;> simp at hd h3 <;> omega)
+
+/-- `SideOK` cannot be dropped from `c11_eof_viable`: `"\xff` from a slice is `EofWhileParsingString` at byte 2, yet no
+    continuation is accepted (the grammar-level statement does hold: `"\xff"` is a JSON text) -/
+theorem c11_eof_sideOK_needed :
+    parseTop envSl [0x22, 0xff] = .err .EofWhileParsingString 2 ∧
+    ∀ ys v, parseTop envSl (([0x22, 0xff] : Bytes) ++ ys) ≠ .ok v :=
+  ⟨rfl, SJ.Proofs.Earliest.dead_prefix envSl rfl (by decide) [0x22, 0xff]
+    ⟨[0xff], .none, false, false⟩ [] rfl SJ.Proofs.Earliest.utf8Dead_ff⟩
+
+/-! ## the grammar reading of "first byte after which no continuation could be valid JSON", hypothesis-free
+
+`c11_dead` / `c11_earliest` speak about *accepted* continuations, which for `Value` involve the side conditions (hence
+`SideOK`). Read at the level of the RFC 8259 grammar the statement needs no hypothesis: whenever the machine — any
+target — reports a GRAMMAR error code (`sideCode c = false`: not `NumberOutOfRange`, `RecursionLimitExceeded`,
+`InvalidUnicodeCodePoint`, `LoneLeadingSurrogateInHexEscape`, `UnexpectedEndOfHexEscape`) at byte count `idx`,
+
+* no continuation of the first `idx` bytes is a JSON text (`c11_dead_grammar`), and
+* the first `idx - 1` bytes do have a continuation that is a JSON text (`c11_earliest_value_grammar`; `k = 4` for a
+  fault inside a `\u` group, reported at the group's fourth byte).
+
+Both follow from a simulation: the scanner of skipped content, which accepts exactly the grammar
+(`c19_skip_language`), consumes whatever any run consumes and fails where a run fails with a grammar code
+(`Proofs/EarliestSim.lean`). -/
+
+abbrev sideCode := SJ.Proofs.EarliestSim.sideCode
+
+open SJ.Proofs.Earliest SJ.Proofs.EarliestGrammar in
+/-- **C11 (earliest, grammar level, no state predicate).** -/
+theorem c11_earliest_value_grammar (env : Env) (bs : Bytes) (c : Code) (idx : Nat)
+    (h : parseTop env bs = .err c idx) (hc : classify c ≠ .eof) (hs : sideCode c = false) :
+    ∃ k ys t, (k = 1 ∨ (k = 4 ∧ c = .InvalidEscape ∧ ∃ x, bs.take (idx - 4) = x ++ [0x5c, 0x75])) ∧
+      Spec.Grammar.JsonText (bs.take (idx - k) ++ ys) t := by
+  obtain ⟨p, b, rest, s1, rfl, hf, hst, rfl⟩ := parse_err_step env bs c idx h (finish_not_grammar env c hc hs)
+  rcases earliest_grammar_core env p b s1 c .incl hf hst with ⟨ys, t, ht⟩ | ⟨hcode, hlen, ⟨x, hx⟩, ys, t, ht⟩
+  · exact ⟨1, ys, t, Or.inl rfl, by simpa using ht⟩
+  · have htake : (p ++ b :: rest).take (p.length + 1 - 4) = p.take (p.length - 3) := by
+      have : p.length + 1 - 4 = p.length - 3 := by omega
+      rw [this, List.take_append_of_le_length (by omega)]
+    have hcode' : c = .InvalidEscape := by
+      rcases hcode with hcode | hcode
+      · exact hcode
+      · subst hcode; cases hs
+    exact ⟨4, ys, t, Or.inr ⟨rfl, hcode', x, by rw [htake]; exact hx⟩, by rw [htake]; exact ht⟩
+
+open SJ.Proofs.Earliest SJ.Proofs.EarliestGrammar in
+/-- **C11 (dead prefix, grammar level).** A grammar error reported at byte count `idx`: no continuation of the first
+    `idx` bytes is a JSON text. -/
+theorem c11_dead_grammar (env : Env) (bs : Bytes) (c : Code) (idx : Nat)
+    (h : parseTop env bs = .err c idx) (hc : classify c ≠ .eof) (hs : sideCode c = false) :
+    ∀ ys t, ¬ Spec.Grammar.JsonText (bs.take idx ++ ys) t := by
+  obtain ⟨p, b, rest, s1, rfl, hf, hst, rfl⟩ := parse_err_step env bs c idx h (finish_not_grammar env c hc hs)
+  intro ys t ht
+  have : (p ++ b :: rest).take (p.length + 1) = p ++ [b] := by
+    have e : p ++ b :: rest = (p ++ [b]) ++ rest := by simp
+    rw [e]; exact List.take_left' (by simp)
+  rw [this] at ht
+  exact dead_grammar_core env p b s1 c .incl hf hst hs ys t (by simpa using ht)
+
+/-! non-vacuity: the `SideOK` counterexample of `c11_sideOK_needed`, `"\xff` + U+0001 from a slice, at grammar level:
+    `ControlCharacterWhileParsingString` is a grammar code, reported at 3; `"\xff` continues with `"` to a JSON text
+    (which `Value` rejects for its UTF-8, not for its grammar) -/
+example : ∃ k ys t, (k = 1 ∨ (k = 4 ∧ Code.ControlCharacterWhileParsingString = .InvalidEscape ∧
+      ∃ x, ([0x22, 0xff, 0x01] : Bytes).take (3 - 4) = x ++ [0x5c, 0x75])) ∧
+    Spec.Grammar.JsonText (([0x22, 0xff, 0x01] : Bytes).take (3 - k) ++ ys) t :=
+  c11_earliest_value_grammar envSl [0x22, 0xff, 0x01] _ 3 rfl (by decide) rfl
+example : ∀ ys t, ¬ Spec.Grammar.JsonText (([0x22, 0xff, 0x01] : Bytes).take 3 ++ ys) t :=
+  c11_dead_grammar envSl [0x22, 0xff, 0x01] _ 3 rfl (by decide) rfl
+example : Spec.Grammar.JsonText ([0x22, 0xff] ++ [0x22]) (.str [.raw 0xff]) :=
+  ⟨[], _, [], rfl, by decide, by decide, Spec.Grammar.Derives.str [.raw 0xff] rfl⟩
+
+/-! ## faults inside a string literal: between the first offending byte and the end of that literal
+
+The codes raised inside a string literal (`strCode`) are raised only from string states. For them:
+
+* lower bound — the first `idx` bytes are already dead (`c11_dead`), so the first offending byte is at or before `idx`;
+  under `SideOK` it is exactly byte `idx`, or one of the four bytes of the `\u` group ending there (`c11_earliest`);
+* upper bound — `idx` is not past the end of the literal as an independent lenient scan finds it
+  (`Spec.Pos.literalEnd`: first quote not preceded by an escaping backslash; the input length if there is none).
+  `InvalidUnicodeCodePoint` is reported exactly at the closing quote. One exception, forced by the code: the four bytes
+  after `\u` are taken whatever they are, so when one of them is a quote (or a backslash before a quote) the
+  `InvalidEscape` is reported at the group's fourth byte although the lenient scan has closed the literal inside the
+  group — then the `\u` itself lies within the literal (second alternative; the oracle's `hexEnd`).
+
+`start` is the index of the literal's opening quote: the byte there is `"`, the machine is outside any string after the
+`start` bytes before it and inside one before the offending byte. For every source (`errIdx` counts the offending byte
+for slices and readers alike). -/
+
+abbrev strCode := SJ.Proofs.EarliestStrBound.strCode
+
+open SJ.Proofs.Earliest SJ.Proofs.EarliestStrBound SJ.Proofs.Complete in
+/-- **C11 (faults inside a string literal).** -/
+theorem c11_string_fault_bounds (env : Env) (bs : Bytes) (c : Code) (idx : Nat)
+    (h : parseTop env bs = .err c idx) (hc : strCode c = true) :
+    (∀ ys, parseTop env (bs.take idx ++ ys) = .err c idx) ∧
+    ∃ start, start + 2 ≤ idx ∧ bs[start]? = some 0x22 ∧
+      (∃ s0, feed env init 0 (bs.take start) = .ok (s0, start) ∧ ∀ st0, s0.mode ≠ .str st0) ∧
+      (∃ s1 st, feed env init 0 (bs.take (idx - 1)) = .ok (s1, idx - 1) ∧ s1.mode = .str st) ∧
+      (idx ≤ Spec.Pos.literalEnd bs start ∨
+       (c = .InvalidEscape ∧ (∃ x, bs.take (idx - 4) = x ++ [0x5c, 0x75]) ∧ start + 3 ≤ idx - 4 ∧
+         idx - 4 ≤ Spec.Pos.literalEnd bs start)) := by
+  have hce : classify c ≠ .eof := by revert hc; cases c <;> decide
+  have hcn : c ≠ .NumberOutOfRange := by revert hc; cases c <;> decide
+  refine ⟨(c11_dead env bs c idx h hce hcn).2, ?_⟩
+  have hnf : ∀ s, finish env s ≠ .error c := by
+    intro s hfin
+    cases ht : env.tgt with
+    | value =>
+      rcases finish_eof_clean_value env ht s c hfin with h1 | h1
+      · exact hce h1
+      · exact hcn h1
+    | ignored => exact hce (finish_eof_clean_ignored env ht s c hfin)
+  obtain ⟨p, b, rest, s1, rfl, hf, hst, rfl⟩ := parse_err_step env bs c idx h hnf
+  obtain ⟨st, hm⟩ := step_code_str env s1 b c .incl hst hc
+  obtain ⟨mode, fs⟩ := s1
+  simp only at hm; subst hm
+  obtain ⟨start, h1, h2, ⟨s0, hf0, hs0⟩, h3⟩ := str_fault_bound env p b rest st fs c .incl hf hst
+  have hlen : ((p ++ b :: rest).take start).length = start := by
+    rw [List.length_take]; simp; omega
+  refine ⟨start, h1, h2, ⟨s0, ?_, hs0⟩, ⟨⟨.str st, fs⟩, st, ?_, rfl⟩, h3⟩
+  · rw [hf0.to_feed 0, hlen]; simp
+  · have : (p ++ b :: rest).take (p.length + 1 - 1) = p := by simp
+    rw [this, hf.to_feed 0]; simp
+
+/-! non-vacuity: `["a\u12"x"]` — the group's third byte is the quote: `InvalidEscape` at byte 9 (the `x`), the
+    lenient literal end is 8 (second alternative: `\u` ends at byte 6 ≤ 8); `"\xffab"` from a slice —
+    `InvalidUnicodeCodePoint` at the closing quote, byte 5 = `literalEnd`; `"a` + U+0001 + `b"` — the control
+    character, byte 3 -/
+example : parseTop envSl [0x5b, 0x22, 0x61, 0x5c, 0x75, 0x31, 0x32, 0x22, 0x78, 0x22, 0x5d] = .err .InvalidEscape 9 ∧
+    Spec.Pos.literalEnd [0x5b, 0x22, 0x61, 0x5c, 0x75, 0x31, 0x32, 0x22, 0x78, 0x22, 0x5d] 1 = 8 := ⟨rfl, rfl⟩
+example : parseTop envSl [0x22, 0xff, 0x61, 0x62, 0x22] = .err .InvalidUnicodeCodePoint 5 ∧
+    Spec.Pos.literalEnd [0x22, 0xff, 0x61, 0x62, 0x22] 0 = 5 := ⟨rfl, rfl⟩
+example : ∃ start, start + 2 ≤ 3 ∧ ([0x22, 0x61, 0x01, 0x62, 0x22] : Bytes)[start]? = some 0x22 ∧
+      (∃ s0, feed envS init 0 (([0x22, 0x61, 0x01, 0x62, 0x22] : Bytes).take start) = .ok (s0, start) ∧
+        ∀ st0, s0.mode ≠ .str st0) ∧
+      (∃ s1 st, feed envS init 0 (([0x22, 0x61, 0x01, 0x62, 0x22] : Bytes).take (3 - 1)) = .ok (s1, 3 - 1) ∧
+        s1.mode = .str st) ∧
+      (3 ≤ Spec.Pos.literalEnd [0x22, 0x61, 0x01, 0x62, 0x22] start ∨
+       (Code.ControlCharacterWhileParsingString = .InvalidEscape ∧
+         (∃ x, ([0x22, 0x61, 0x01, 0x62, 0x22] : Bytes).take (3 - 4) = x ++ [0x5c, 0x75]) ∧ start + 3 ≤ 3 - 4 ∧
+         3 - 4 ≤ Spec.Pos.literalEnd [0x22, 0x61, 0x01, 0x62, 0x22] start)) :=
+  (c11_string_fault_bounds envS [0x22, 0x61, 0x01, 0x62, 0x22] .ControlCharacterWhileParsingString 3 rfl rfl).2
 
 end SJ.Props.C11
